@@ -4,6 +4,7 @@ import (
 	"context"
 	"fmt"
 
+	"github.com/freeconf/yang/fc"
 	"github.com/freeconf/yang/meta"
 	"github.com/freeconf/yang/node"
 	"github.com/freeconf/yang/val"
@@ -77,7 +78,7 @@ func (s *Basic) Field(r node.FieldRequest, hnd *node.ValueHandle) error {
 
 func (s *Basic) Choose(sel *node.Selection, choice *meta.Choice) (m *meta.ChoiceCase, err error) {
 	if s.OnChoose == nil {
-		return nil, fmt.Errorf("OnChoose not implemented for %s.%s", sel.Path, choice.Ident())
+		return nil, fmt.Errorf("%w. OnChoose not implemented for %s.%s", fc.NotImplementedError, sel.Path, choice.Ident())
 	}
 	return s.OnChoose(sel, choice)
 }
